@@ -30,7 +30,7 @@ from ..symtext import CHR2CODE
 
 PROP = 'C30'
 KNOWN_BARE = 'C30-bare-flag-keeps-dashes'
-NAME_ALPHA = [CHR2CODE[c] for c in 'a-_']
+NAME_ALPHA = [CHR2CODE[c] for c in 'aA-_']       # parameter names are case-sensitive
 VAL_ALPHA = [CHR2CODE[c] for c in 'a-"\' ']
 GRAMMAR = "Model: 'm' name=ID;"
 
@@ -284,7 +284,7 @@ def main():
     maxn = 2 if quick else 3
     maxv = 2 if quick else 3
     items = []
-    decls = [None, [('a_a', True)], [('a', False), ('_', False)]]
+    decls = [None, [('a_a', True)], [('a', False), ('_', False)], [('A', False), ('aA', False)]]
     for declared in decls:
         for nlen in range(1, maxn + 1):
             items.append((nlen, 'none', 0, declared, 20000))
@@ -295,7 +295,7 @@ def main():
         items.append((1, 'noargs', 0, declared, 20000))
     results = pmap(explore_case, items)
     chk.cov['functions_encoded'] = src_hash(G.generate)
-    chk.cov['bounds'] = {'name_chars': maxn, 'value_chars': maxv, 'name_alphabet': 'a - _',
+    chk.cov['bounds'] = {'name_chars': maxn, 'value_chars': maxv, 'name_alphabet': 'a A - _',
                          'value_alphabet': 'a - " \' space', 'declared_parameter_sets': [str(d) for d in decls]}
     chk.cov['stubs'] = ['click context = object with obj={"debug": False}',
                         'harness language c30lang / generator c30t registered in the real registry',
